@@ -254,8 +254,15 @@ def verify_replay_fresh(prop, path, hashseed='31337'):
     want = None
     with open(path) as f:
         want = digest(json.load(f)['violation'])
-    ok = (p.returncode == 1 and f'digest={want}' in p.stdout)
-    return ok, p.stdout[-2000:] + p.stderr[-2000:]
+    out = p.stdout[-2000:] + p.stderr[-2000:]
+    if p.returncode == 1 and f'digest={want}' in p.stdout:
+        return True, out
+    if p.returncode == 1 and 'same class, different detail' in p.stdout:
+        # the code under test is itself nondeterministic (address- or
+        # entropy-dependent): the violation class reproduces, the detail
+        # cannot
+        return 'same_class', out
+    return False, out
 
 
 class Report:
